@@ -226,4 +226,747 @@ theorem min_div_minus_one : wrapInt 32 true (Int.tdiv (-2147483648) (-1)) = -214
 theorem trunc_div_example : Int.tdiv (-7) 2 = -3 ∧ Int.tmod (-7) 2 = -1 ∧ Int.tdiv 7 (-2) = -3 ∧ Int.tmod 7 (-2) = 1 := by
   decide
 
+/-! ## 3. bitwise operators -/
+
+/-- the number below `2^k` whose bit `i` is `g i` -/
+def bitsSum (g : Nat → Bool) : Nat → Nat
+  | 0 => 0
+  | k + 1 => if g k then bitsSum g k + 2 ^ k else bitsSum g k
+
+theorem foldl_eq_bitsSum (g : Nat → Bool) (k : Nat) :
+    (List.range k).foldl (fun (acc : Int) i => if g i = true then acc + 2 ^ i else acc) 0
+      = ((bitsSum g k : Nat) : Int) := by
+  induction k with
+  | zero => rfl
+  | succ k ih =>
+    rw [List.range_succ, List.foldl_append, ih]
+    simp only [List.foldl_cons, List.foldl_nil, bitsSum]
+    split <;> simp
+
+theorem bitsSum_lt (g : Nat → Bool) (k : Nat) : bitsSum g k < 2 ^ k := by
+  induction k with
+  | zero => simp [bitsSum]
+  | succ k ih =>
+    simp only [bitsSum, Nat.pow_succ]
+    split <;> omega
+
+theorem testBit_bitsSum (g : Nat → Bool) (k i : Nat) :
+    (bitsSum g k).testBit i = (decide (i < k) && g i) := by
+  induction k with
+  | zero => simp [bitsSum]
+  | succ k ih =>
+    have hlt := bitsSum_lt g k
+    simp only [bitsSum]
+    rcases Nat.lt_trichotomy i k with h | h | h
+    · have e : decide (i < k + 1) = true := by simp; omega
+      have e' : decide (i < k) = true := by simp; omega
+      split
+      · rw [Nat.add_comm, Nat.testBit_two_pow_add_gt h, ih, e, e']
+      · rw [ih, e, e']
+    · subst h
+      have e : decide (i < i + 1) = true := by simp
+      have hf : (bitsSum g i).testBit i = false := Nat.testBit_lt_two_pow hlt
+      split
+      · rename_i hg
+        rw [Nat.add_comm, Nat.testBit_two_pow_add_eq, hf, e, hg]; rfl
+      · rename_i hg
+        rw [hf, e]; simp [hg]
+    · have e : decide (i < k + 1) = false := by simp; omega
+      rw [e, Bool.false_and]
+      apply Nat.testBit_lt_two_pow
+      have : 2 ^ (k + 1) ≤ 2 ^ i := Nat.pow_le_pow_right (by decide) h
+      rw [Nat.pow_succ] at this
+      split <;> omega
+
+/-- the unsigned bit pattern of `a` at width `bits` -/
+def upat (bits : Nat) (a : Int) : Nat := (a % ((2 ^ bits : Nat) : Int)).toNat
+
+theorem upat_lt (bits : Nat) (a : Int) : upat bits a < 2 ^ bits := by
+  unfold upat
+  have hpos : 0 < 2 ^ bits := Nat.pow_pos (by decide)
+  have h0 := Int.emod_nonneg a (show ((2 ^ bits : Nat) : Int) ≠ 0 by omega)
+  have h1 := Int.emod_lt_of_pos a (show (0 : Int) < ((2 ^ bits : Nat) : Int) by omega)
+  generalize 2 ^ bits = M at *
+  omega
+
+theorem upat_of_in_range {bits : Nat} {a : Int} (h0 : 0 ≤ a) (h1 : a < ((2 ^ bits : Nat) : Int)) :
+    upat bits a = a.toNat := by
+  unfold upat; rw [Int.emod_eq_of_lt h0 h1]
+
+theorem bitwise_eq_bitsSum (f : Bool → Bool → Bool) (bits : Nat) (a b : Int) :
+    bitwise f bits a b
+      = ((bitsSum (fun i => f ((upat bits a).testBit i) ((upat bits b).testBit i)) bits : Nat) : Int) := by
+  unfold bitwise upat
+  exact foldl_eq_bitsSum _ bits
+
+/-- the result is a `bits`-wide unsigned pattern -/
+theorem bitwise_range (f : Bool → Bool → Bool) (bits : Nat) (a b : Int) :
+    0 ≤ bitwise f bits a b ∧ bitwise f bits a b < ((2 ^ bits : Nat) : Int) := by
+  rw [bitwise_eq_bitsSum]
+  have := bitsSum_lt (fun i => f ((upat bits a).testBit i) ((upat bits b).testBit i)) bits
+  omega
+
+/-- bit `i` of the result is `f` of bit `i` of the operands' patterns -/
+theorem bitwise_testBit (f : Bool → Bool → Bool) (hf : f false false = false) (bits : Nat) (a b : Int)
+    (i : Nat) :
+    (bitwise f bits a b).toNat.testBit i = f ((upat bits a).testBit i) ((upat bits b).testBit i) := by
+  rw [bitwise_eq_bitsSum, Int.toNat_natCast, testBit_bitsSum]
+  by_cases h : i < bits
+  · simp [h]
+  · have hle : 2 ^ bits ≤ 2 ^ i := Nat.pow_le_pow_right (by decide) (by omega)
+    have ha := Nat.testBit_lt_two_pow (Nat.lt_of_lt_of_le (upat_lt bits a) hle)
+    have hb := Nat.testBit_lt_two_pow (Nat.lt_of_lt_of_le (upat_lt bits b) hle)
+    simp [h, ha, hb, hf]
+
+theorem bitwise_eq_of_testBit (f : Bool → Bool → Bool) (hf : f false false = false) (bits : Nat) (a b : Int)
+    (n : Nat) (hn : ∀ i, n.testBit i = f ((upat bits a).testBit i) ((upat bits b).testBit i)) :
+    bitwise f bits a b = (n : Int) := by
+  have h0 := (bitwise_range f bits a b).1
+  have : (bitwise f bits a b).toNat = n :=
+    Nat.eq_of_testBit_eq fun i => by rw [bitwise_testBit f hf, hn]
+  omega
+
+theorem bitwise_and_pat (bits : Nat) (a b : Int) :
+    bitwise (· && ·) bits a b = ((upat bits a &&& upat bits b : Nat) : Int) :=
+  bitwise_eq_of_testBit _ rfl bits a b _ fun _ => Nat.testBit_and ..
+theorem bitwise_or_pat (bits : Nat) (a b : Int) :
+    bitwise (· || ·) bits a b = ((upat bits a ||| upat bits b : Nat) : Int) :=
+  bitwise_eq_of_testBit _ rfl bits a b _ fun _ => Nat.testBit_or ..
+theorem bitwise_xor_pat (bits : Nat) (a b : Int) :
+    bitwise (fun x y => x != y) bits a b = ((upat bits a ^^^ upat bits b : Nat) : Int) :=
+  bitwise_eq_of_testBit _ rfl bits a b _ fun _ => by rw [Nat.testBit_xor]
+
+/-- for operands already in the unsigned range, `bitwise` is the Nat bit operation -/
+theorem bitwise_and {bits : Nat} {a b : Int} (ha0 : 0 ≤ a) (ha : a < ((2 ^ bits : Nat) : Int))
+    (hb0 : 0 ≤ b) (hb : b < ((2 ^ bits : Nat) : Int)) :
+    bitwise (· && ·) bits a b = ((a.toNat &&& b.toNat : Nat) : Int) := by
+  rw [bitwise_and_pat, upat_of_in_range ha0 ha, upat_of_in_range hb0 hb]
+theorem bitwise_or {bits : Nat} {a b : Int} (ha0 : 0 ≤ a) (ha : a < ((2 ^ bits : Nat) : Int))
+    (hb0 : 0 ≤ b) (hb : b < ((2 ^ bits : Nat) : Int)) :
+    bitwise (· || ·) bits a b = ((a.toNat ||| b.toNat : Nat) : Int) := by
+  rw [bitwise_or_pat, upat_of_in_range ha0 ha, upat_of_in_range hb0 hb]
+theorem bitwise_xor {bits : Nat} {a b : Int} (ha0 : 0 ≤ a) (ha : a < ((2 ^ bits : Nat) : Int))
+    (hb0 : 0 ≤ b) (hb : b < ((2 ^ bits : Nat) : Int)) :
+    bitwise (fun x y => x != y) bits a b = ((a.toNat ^^^ b.toNat : Nat) : Int) := by
+  rw [bitwise_xor_pat, upat_of_in_range ha0 ha, upat_of_in_range hb0 hb]
+
+example : bitwise (· && ·) 8 12 10 = 8 := by decide
+example : bitwise (· || ·) 8 12 10 = 14 := by decide
+example : bitwise (fun x y => x != y) 8 12 10 = 6 := by decide
+/-- a signed operand is taken by its two's-complement pattern: `-1 & 0x0f = 0x0f` at 8 bits -/
+example : bitwise (· && ·) 8 (-1) 15 = 15 := by decide
+
+/-- at an unsigned type the bitwise operators of the reference semantics are exactly the Nat operations
+    on the operands' patterns (no further wrapping happens) -/
+theorem band_unsigned (bits : Nat) (a b : Int) :
+    evalIntBin .band bits false a b = pure (.int ((upat bits a &&& upat bits b : Nat) : Int)) := by
+  have h := bitwise_range (· && ·) bits a b
+  show pure (Val.int (wrapInt bits false (bitwise (· && ·) bits a b))) = _
+  rw [wrapInt_id_unsigned _ h.1 h.2, bitwise_and_pat]
+theorem bor_unsigned (bits : Nat) (a b : Int) :
+    evalIntBin .bor bits false a b = pure (.int ((upat bits a ||| upat bits b : Nat) : Int)) := by
+  have h := bitwise_range (· || ·) bits a b
+  show pure (Val.int (wrapInt bits false (bitwise (· || ·) bits a b))) = _
+  rw [wrapInt_id_unsigned _ h.1 h.2, bitwise_or_pat]
+theorem bxor_unsigned (bits : Nat) (a b : Int) :
+    evalIntBin .bxor bits false a b = pure (.int ((upat bits a ^^^ upat bits b : Nat) : Int)) := by
+  have h := bitwise_range (fun x y => x != y) bits a b
+  show pure (Val.int (wrapInt bits false (bitwise (fun x y => x != y) bits a b))) = _
+  rw [wrapInt_id_unsigned _ h.1 h.2, bitwise_xor_pat]
+/-- at a signed type the result is the two's-complement reading of the same pattern -/
+theorem band_signed (bits : Nat) (a b : Int) :
+    evalIntBin .band bits true a b
+      = pure (.int (wrapInt bits true ((upat bits a &&& upat bits b : Nat) : Int))) := by
+  show pure (Val.int (wrapInt bits true (bitwise (· && ·) bits a b))) = _
+  rw [bitwise_and_pat]
+example : wrapInt 8 true (bitwise (· && ·) 8 (-1) (-16)) = -16 := by decide
+
+/-! ## 4. store laws: by-value composites, write-through places -/
+
+
+/-- embed a pure outcome in the interpreter monad (no state change) -/
+def ofExcept {α : Type} (e : Except Abort α) : M α := ExceptT.mk (pure e)
+
+@[simp] theorem ofExcept_ok {α : Type} (a : α) : ofExcept (.ok a) = (pure a : M α) := rfl
+@[simp] theorem ofExcept_error {α : Type} (x : Abort) : (ofExcept (.error x) : M α) = throw x := rfl
+theorem ofExcept_run {α : Type} (e : Except Abort α) (s : St) : (ofExcept e).run s = (e, s) := rfl
+theorem ofExcept_bind {α β : Type} (e : Except Abort α) (f : α → M β) :
+    ofExcept e >>= f = match e with | .ok a => f a | .error x => throw x := by
+  cases e <;> rfl
+theorem ofExcept_map {α β : Type} (e : Except Abort α) (f : α → β) :
+    f <$> ofExcept e = ofExcept (Except.map f e) := by
+  cases e <;> rfl
+theorem ofExcept_inj {α : Type} {e e' : Except Abort α} (h : ofExcept e = ofExcept e') : e = e' := by
+  have := congrArg (fun m : M α => (m.run {}).1) h
+  simpa [ofExcept_run] using this
+
+def getPathP : Val → List Seg → Except Abort Val
+  | v, [] => .ok v
+  | .struct _ fs, .fld f :: rest =>
+    match fs.find? (·.1 == f) with
+    | some (_, v) => getPathP v rest
+    | none => .error (.stuck s!"no field {f}")
+  | .arr es, .idx i :: rest =>
+    match es[i]? with
+    | some v => getPathP v rest
+    | none => .error (.panic "index out of bounds")
+  | .opt (some v), segs => getPathP v segs
+  | _, _ => .error (.stuck "bad path")
+
+def setPathP : Val → List Seg → Val → Except Abort Val
+  | _, [], nv => .ok nv
+  | .struct n fs, .fld f :: rest, nv =>
+    match fs.find? (·.1 == f) with
+    | some (_, v) =>
+      (setPathP v rest nv).map fun v' => .struct n (fs.map fun (g, x) => if g == f then (g, v') else (g, x))
+    | none => .error (.stuck s!"no field {f}")
+  | .arr es, .idx i :: rest, nv =>
+    match es[i]? with
+    | some v =>
+      (setPathP v rest nv).map fun v' => .arr (es.set i v')
+    | none => .error (.panic "index out of bounds")
+  | _, _, _ => .error (.stuck "bad path (set)")
+
+theorem getPath_eq (v : Val) (p : List Seg) : getPath v p = ofExcept (getPathP v p) := by
+  fun_induction getPath v p <;> simp [getPathP, stuck, panic, *]
+
+theorem setPath_eq (v : Val) (p : List Seg) (nv : Val) : setPath v p nv = ofExcept (setPathP v p nv) := by
+  fun_induction setPath v p nv <;> simp [setPathP, stuck, panic, ofExcept_map, *]
+
+theorem find_map_same (fs : List (String × Val)) (f g : String) (v v' : Val)
+    (h : fs.find? (·.1 == f) = some (g, v)) :
+    (fs.map fun (g, x) => if g == f then (g, v') else (g, x)).find? (·.1 == f) = some (g, v') := by
+  induction fs with
+  | nil => simp at h
+  | cons hd tl ih =>
+    obtain ⟨g0, x0⟩ := hd
+    simp only [List.map_cons, List.find?_cons] at h ⊢
+    cases hb : g0 == f with
+    | true =>
+      simp only [hb] at h
+      simp only [if_true, hb]
+      cases h; rfl
+    | false =>
+      simp only [hb] at h
+      simp only [Bool.false_eq_true, if_false, hb]
+      exact ih h
+
+theorem find_map_other (fs : List (String × Val)) (f f' : String) (v' : Val) (hne : f' ≠ f) :
+    (fs.map fun (g, x) => if g == f then (g, v') else (g, x)).find? (·.1 == f') = fs.find? (·.1 == f') := by
+  induction fs with
+  | nil => rfl
+  | cons hd tl ih =>
+    obtain ⟨g0, x0⟩ := hd
+    simp only [List.map_cons, List.find?_cons]
+    cases hb' : g0 == f' with
+    | true =>
+      have : (g0 == f) = false := by
+        have : g0 = f' := by simpa using hb'
+        subst this; simpa using hne
+      simp only [this, Bool.false_eq_true, if_false, hb']
+    | false =>
+      cases hb : g0 == f with
+      | true => simp only [if_true, hb']; exact ih
+      | false => simp only [Bool.false_eq_true, if_false, hb']; exact ih
+
+theorem getPathP_setPathP_same (v : Val) (p : List Seg) (nv v' : Val)
+    (h : setPathP v p nv = .ok v') : getPathP v' p = .ok nv := by
+  fun_induction setPathP v p nv generalizing v' with
+  | case1 _ nv =>
+    cases h; simp [getPathP]
+  | case2 n fs f rest nv g v hf ih =>
+    cases hs : setPathP v rest nv with
+    | error e => simp [hs, Except.map] at h
+    | ok w =>
+      simp only [hs, Except.map] at h
+      cases h
+      simp only [getPathP, find_map_same fs f g v w hf]
+      exact ih w hs
+  | case3 n fs f rest nv hf => cases h
+  | case4 es i rest nv v hi ih =>
+    cases hs : setPathP v rest nv with
+    | error e => simp [hs, Except.map] at h
+    | ok w =>
+      simp only [hs, Except.map] at h
+      cases h
+      have hlt : i < es.length := by
+        rcases Nat.lt_or_ge i es.length with h | h
+        · exact h
+        · simp [List.getElem?_eq_none h] at hi
+      simp only [getPathP, List.getElem?_set_self hlt]
+      exact ih w hs
+  | case5 es i rest nv hi => cases h
+  | case6 => cases h
+
+/-- what a successful one-segment-or-deeper write looks like -/
+theorem setPathP_cons_ok {v : Val} {sg : Seg} {p : List Seg} {nv v' : Val}
+    (h : setPathP v (sg :: p) nv = .ok v') :
+    (∃ n fs f g x w, v = .struct n fs ∧ sg = .fld f ∧ fs.find? (·.1 == f) = some (g, x) ∧
+        setPathP x p nv = .ok w ∧
+        v' = .struct n (fs.map fun (g, y) => if g == f then (g, w) else (g, y))) ∨
+    (∃ es i x w, v = .arr es ∧ sg = .idx i ∧ es[i]? = some x ∧ setPathP x p nv = .ok w ∧
+        v' = .arr (es.set i w)) := by
+  cases v <;> cases sg <;> simp only [setPathP] at h <;> try (cases h; done)
+  · split at h
+    · rename_i g x hf
+      cases hs : setPathP x p nv with
+      | error e => simp [hs, Except.map] at h
+      | ok w =>
+        simp only [hs, Except.map] at h
+        cases h
+        exact Or.inl ⟨_, _, _, g, x, w, rfl, rfl, hf, hs, rfl⟩
+    · cases h
+  · split at h
+    · rename_i x hi
+      cases hs : setPathP x p nv with
+      | error e => simp [hs, Except.map] at h
+      | ok w =>
+        simp only [hs, Except.map] at h
+        cases h
+        exact Or.inr ⟨_, _, x, w, rfl, rfl, hi, hs, rfl⟩
+    · cases h
+
+/-- a write below one first segment leaves everything below a different first segment unchanged -/
+theorem getPathP_setPathP_diverge {v : Val} {s1 s2 : Seg} {p q : List Seg} {nv v' : Val}
+    (hne : s1 ≠ s2) (h : setPathP v (s1 :: p) nv = .ok v') :
+    getPathP v' (s2 :: q) = getPathP v (s2 :: q) := by
+  rcases setPathP_cons_ok h with ⟨n, fs, f, g, x, w, rfl, rfl, hf, hs, rfl⟩ | ⟨es, i, x, w, rfl, rfl, hi, hs, rfl⟩
+  · cases s2 with
+    | fld f' =>
+      have : f' ≠ f := fun e => hne (by rw [e])
+      simp only [getPathP, find_map_other fs f f' w this]
+    | idx j => simp only [getPathP]
+  · cases s2 with
+    | fld f' => simp only [getPathP]
+    | idx j =>
+      have : i ≠ j := fun e => hne (by rw [e])
+      simp only [getPathP, List.getElem?_set_ne this]
+
+/-- general form: the two paths share a prefix and then diverge -/
+theorem getPathP_setPathP_disjoint {v : Val} (pre : List Seg) {s1 s2 : Seg} {p q : List Seg} {nv v' : Val}
+    (hne : s1 ≠ s2) (h : setPathP v (pre ++ s1 :: p) nv = .ok v') :
+    getPathP v' (pre ++ s2 :: q) = getPathP v (pre ++ s2 :: q) := by
+  induction pre generalizing v v' with
+  | nil => exact getPathP_setPathP_diverge hne h
+  | cons sg pre ih =>
+    rcases setPathP_cons_ok h with ⟨n, fs, f, g, x, w, rfl, rfl, hf, hs, rfl⟩ | ⟨es, i, x, w, rfl, rfl, hi, hs, rfl⟩
+    · simp only [List.cons_append, getPathP, find_map_same fs f g x w hf, hf]
+      exact ih hs
+    · have hlt : i < es.length := by
+        rcases Nat.lt_or_ge i es.length with h | h
+        · exact h
+        · simp [List.getElem?_eq_none h] at hi
+      simp only [List.cons_append, getPathP, List.getElem?_set_self hlt, hi]
+      exact ih hs
+
+theorem getPath_run (v : Val) (p : List Seg) (s : St) : (getPath v p).run s = (getPathP v p, s) := by
+  rw [getPath_eq]; rfl
+theorem setPath_run (v : Val) (p : List Seg) (nv : Val) (s : St) :
+    (setPath v p nv).run s = (setPathP v p nv, s) := by
+  rw [setPath_eq]; rfl
+
+theorem run_get_bind {α : Type} (f : St → M α) (s : St) : (get >>= f).run s = (f s).run s := rfl
+theorem run_modify (g : St → St) (s : St) : (modify g : M Unit).run s = (.ok (), g s) := rfl
+theorem run_modifyGet {α : Type} (g : St → α × St) (s : St) :
+    (modifyGet g : M α).run s = (.ok (g s).1, (g s).2) := rfl
+theorem run_pure {α : Type} (a : α) (s : St) : (pure a : M α).run s = (.ok a, s) := rfl
+theorem run_throw {α : Type} (e : Abort) (s : St) : (throw e : M α).run s = (.error e, s) := rfl
+theorem run_bind {α β : Type} (x : M α) (f : α → M β) (s : St) :
+    (x >>= f).run s = match x.run s with
+      | (.ok a, s') => (f a).run s'
+      | (.error e, s') => (.error e, s') := by
+  show (ExceptT.run x >>= ExceptT.bindCont f) s = _
+  show (match ExceptT.run x s with | (a, s') => ExceptT.bindCont f a s') = _
+  rcases h : ExceptT.run x s with ⟨a | a, s'⟩ <;> rfl
+
+def readLocP (s : St) (l : Loc) : Except Abort Val :=
+  match l.base with
+  | .cell n =>
+    match s.cells[n]? with
+    | some v => getPathP v l.path
+    | none => .error (.stuck "dangling cell")
+  | .dynB h =>
+    match s.dyns[h]? with
+    | some es => getPathP (.arr es) l.path
+    | none => .error (.stuck "dangling dyn")
+
+def writeLocP (s : St) (l : Loc) (nv : Val) : Except Abort St :=
+  match l.base with
+  | .cell n =>
+    match s.cells[n]? with
+    | some v => (setPathP v l.path nv).map fun v' => { s with cells := s.cells.set! n v' }
+    | none => .error (.stuck "dangling cell")
+  | .dynB h =>
+    match s.dyns[h]? with
+    | some es =>
+      match setPathP (.arr es) l.path nv with
+      | .ok (.arr es') => .ok { s with dyns := s.dyns.set! h es' }
+      | .ok _ => .error (.stuck "dyn write")
+      | .error e => .error e
+    | none => .error (.stuck "dangling dyn")
+
+theorem readLoc_run (l : Loc) (s : St) : (readLoc l).run s = (readLocP s l, s) := by
+  unfold readLoc readLocP
+  rw [run_get_bind]
+  obtain ⟨b, p⟩ := l
+  cases b with
+  | cell n =>
+    simp only []
+    cases h : s.cells[n]? with
+    | none => rfl
+    | some v => simp only [getPath_run]
+  | dynB n =>
+    simp only []
+    cases h : s.dyns[n]? with
+    | none => rfl
+    | some v => simp only [getPath_run]
+
+theorem writeLoc_run (l : Loc) (nv : Val) (s : St) :
+    (writeLoc l nv).run s = match writeLocP s l nv with
+      | .ok s' => (.ok (), s')
+      | .error e => (.error e, s) := by
+  unfold writeLoc writeLocP
+  rw [run_get_bind]
+  obtain ⟨b, p⟩ := l
+  cases b with
+  | cell n =>
+    simp only []
+    cases h : s.cells[n]? with
+    | none => rfl
+    | some v =>
+      simp only [run_bind, setPath_run]
+      cases hs : setPathP v p nv with
+      | error e => rfl
+      | ok w => rfl
+  | dynB n =>
+    simp only []
+    cases h : s.dyns[n]? with
+    | none => rfl
+    | some es =>
+      simp only [run_bind, setPath_run]
+      cases hs : setPathP (.arr es) p nv with
+      | error e => rfl
+      | ok w => cases w <;> rfl
+
+theorem array_set!_same {α : Type} (a : Array α) (n : Nat) (x v : α) (h : a[n]? = some x) :
+    (a.set! n v)[n]? = some v := by
+  have hlt : n < a.size := by
+    rcases Nat.lt_or_ge n a.size with h' | h'
+    · exact h'
+    · simp [Array.getElem?_eq_none h'] at h
+  simp [hlt]
+theorem array_set!_ne {α : Type} (a : Array α) (n m : Nat) (v : α) (h : n ≠ m) :
+    (a.set! n v)[m]? = a[m]? := by
+  simp [Array.getElem?_setIfInBounds_ne h]
+
+/-- what a successful write looks like -/
+theorem writeLocP_ok {s s' : St} {l : Loc} {nv : Val} (h : writeLocP s l nv = .ok s') :
+    (∃ n v v', l.base = .cell n ∧ s.cells[n]? = some v ∧ setPathP v l.path nv = .ok v' ∧
+        s' = { s with cells := s.cells.set! n v' }) ∨
+    (∃ k es es', l.base = .dynB k ∧ s.dyns[k]? = some es ∧ setPathP (.arr es) l.path nv = .ok (.arr es') ∧
+        s' = { s with dyns := s.dyns.set! k es' }) := by
+  unfold writeLocP at h
+  split at h
+  · rename_i n hb
+    split at h
+    · rename_i v hc
+      cases hs : setPathP v l.path nv with
+      | error e => simp [hs, Except.map] at h
+      | ok w =>
+        simp only [hs, Except.map] at h
+        cases h
+        exact Or.inl ⟨n, v, w, hb, hc, hs, rfl⟩
+    · cases h
+  · rename_i k hb
+    split at h
+    · rename_i es hc
+      split at h
+      · rename_i es' hs
+        cases h
+        exact Or.inr ⟨k, es, es', hb, hc, hs, rfl⟩
+      · cases h
+      · cases h
+    · cases h
+
+/-- a successful write is read back -/
+theorem readLocP_writeLocP_same {s s' : St} {l : Loc} {nv : Val} (h : writeLocP s l nv = .ok s') :
+    readLocP s' l = .ok nv := by
+  rcases writeLocP_ok h with ⟨n, v, v', hb, hc, hs, rfl⟩ | ⟨k, es, es', hb, hc, hs, rfl⟩
+  · simp only [readLocP, hb, array_set!_same _ _ _ _ hc]
+    exact getPathP_setPathP_same _ _ _ _ hs
+  · simp only [readLocP, hb, array_set!_same _ _ _ _ hc]
+    exact getPathP_setPathP_same _ _ _ _ hs
+
+/-- a write to one cell / dynamic array does not change any other cell / dynamic array -/
+theorem readLocP_writeLocP_other_base {s s' : St} {l l' : Loc} {nv : Val}
+    (h : writeLocP s l nv = .ok s') (hne : l'.base ≠ l.base) : readLocP s' l' = readLocP s l' := by
+  rcases writeLocP_ok h with ⟨n, v, v', hb, hc, hs, rfl⟩ | ⟨k, es, es', hb, hc, hs, rfl⟩
+  · unfold readLocP
+    cases hb' : l'.base with
+    | cell m =>
+      have : n ≠ m := fun e => hne (by rw [hb, hb', e])
+      simp only [array_set!_ne _ _ _ _ this]
+    | dynB k => rfl
+  · unfold readLocP
+    cases hb' : l'.base with
+    | cell m => rfl
+    | dynB k' =>
+      have : k ≠ k' := fun e => hne (by rw [hb, hb', e])
+      simp only [array_set!_ne _ _ _ _ this]
+
+/-- a write below one path leaves a disjoint place of the same base unchanged -/
+theorem readLocP_writeLocP_disjoint_path {s s' : St} {b : Base} (pre : List Seg) {s1 s2 : Seg}
+    {p q : List Seg} {nv : Val} (hne : s1 ≠ s2)
+    (h : writeLocP s ⟨b, pre ++ s1 :: p⟩ nv = .ok s') :
+    readLocP s' ⟨b, pre ++ s2 :: q⟩ = readLocP s ⟨b, pre ++ s2 :: q⟩ := by
+  rcases writeLocP_ok h with ⟨n, v, v', hb, hc, hs, rfl⟩ | ⟨k, es, es', hb, hc, hs, rfl⟩
+  · simp only at hb hs
+    subst hb
+    simp only [readLocP, array_set!_same _ _ _ _ hc, hc]
+    exact getPathP_setPathP_disjoint pre hne hs
+  · simp only at hb hs
+    subst hb
+    simp only [readLocP, array_set!_same _ _ _ _ hc, hc]
+    exact getPathP_setPathP_disjoint pre hne hs
+
+/-- a write changes nothing but the one cell / dynamic array: output, closures and sizes are preserved -/
+theorem writeLocP_frame {s s' : St} {l : Loc} {nv : Val} (h : writeLocP s l nv = .ok s') :
+    s'.out = s.out ∧ s'.clos = s.clos ∧ s'.cells.size = s.cells.size ∧ s'.dyns.size = s.dyns.size := by
+  rcases writeLocP_ok h with ⟨n, v, v', hb, hc, hs, rfl⟩ | ⟨k, es, es', hb, hc, hs, rfl⟩ <;> simp
+
+/-! ### the same laws, stated on the monadic functions by running them -/
+
+/-- `getPath` / `setPath` neither read nor change the state -/
+theorem getPath_state_indep (v : Val) (p : List Seg) :
+    ∃ r, ∀ s : St, (getPath v p).run s = (r, s) := ⟨_, getPath_run v p⟩
+theorem setPath_state_indep (v : Val) (p : List Seg) (nv : Val) :
+    ∃ r, ∀ s : St, (setPath v p nv).run s = (r, s) := ⟨_, setPath_run v p nv⟩
+
+theorem setPath_run_ok {v : Val} {p : List Seg} {nv v' : Val} {s s' : St}
+    (h : (setPath v p nv).run s = (.ok v', s')) : setPathP v p nv = .ok v' ∧ s' = s := by
+  rw [setPath_run] at h
+  injection h with h1 h2
+  exact ⟨h1, h2.symm⟩
+
+theorem getPath_setPath_same {v : Val} {p : List Seg} {nv v' : Val} {s s' : St}
+    (h : (setPath v p nv).run s = (.ok v', s')) (t : St) : (getPath v' p).run t = (.ok nv, t) := by
+  rw [getPath_run, getPathP_setPathP_same _ _ _ _ (setPath_run_ok h).1]
+
+theorem getPath_setPath_same' {v : Val} {p : List Seg} {nv v' : Val}
+    (h : setPath v p nv = pure v') : getPath v' p = pure nv := by
+  rw [setPath_eq] at h
+  rw [getPath_eq, getPathP_setPathP_same _ _ _ _ (ofExcept_inj (e' := .ok v') h)]
+  rfl
+
+theorem getPath_setPath_disjoint_field {v : Val} {f g : String} {p q : List Seg} {nv v' : Val} {s s' : St}
+    (h : (setPath v (.fld f :: p) nv).run s = (.ok v', s')) (hne : g ≠ f) (t : St) :
+    (getPath v' (.fld g :: q)).run t = (getPath v (.fld g :: q)).run t := by
+  rw [getPath_run, getPath_run,
+    getPathP_setPathP_diverge (fun e => hne (by cases e; rfl)) (setPath_run_ok h).1]
+
+theorem getPath_setPath_disjoint_index {v : Val} {i j : Nat} {p q : List Seg} {nv v' : Val} {s s' : St}
+    (h : (setPath v (.idx i :: p) nv).run s = (.ok v', s')) (hne : j ≠ i) (t : St) :
+    (getPath v' (.idx j :: q)).run t = (getPath v (.idx j :: q)).run t := by
+  rw [getPath_run, getPath_run,
+    getPathP_setPathP_diverge (fun e => hne (by cases e; rfl)) (setPath_run_ok h).1]
+
+theorem getPath_setPath_disjoint {v : Val} (pre : List Seg) {s1 s2 : Seg} {p q : List Seg} {nv v' : Val}
+    {s s' : St} (h : (setPath v (pre ++ s1 :: p) nv).run s = (.ok v', s')) (hne : s1 ≠ s2) (t : St) :
+    (getPath v' (pre ++ s2 :: q)).run t = (getPath v (pre ++ s2 :: q)).run t := by
+  rw [getPath_run, getPath_run, getPathP_setPathP_disjoint pre hne (setPath_run_ok h).1]
+
+theorem writeLoc_run_ok {l : Loc} {nv : Val} {s s' : St} :
+    (writeLoc l nv).run s = (.ok (), s') ↔ writeLocP s l nv = .ok s' := by
+  rw [writeLoc_run]
+  cases writeLocP s l nv with
+  | error e =>
+    constructor
+    · intro h; injection h with h1 _; cases h1
+    · intro h; cases h
+  | ok s'' =>
+    constructor
+    · intro h; injection h with _ h2; rw [h2]
+    · intro h; cases h; rfl
+
+/-- a failed write leaves the state unchanged -/
+theorem writeLoc_run_error {l : Loc} {nv : Val} {s s' : St} {e : Abort}
+    (h : (writeLoc l nv).run s = (.error e, s')) : s' = s := by
+  rw [writeLoc_run] at h
+  cases hw : writeLocP s l nv with
+  | error e => rw [hw] at h; cases h; rfl
+  | ok s'' => rw [hw] at h; cases h
+
+theorem readLoc_writeLoc_same {l : Loc} {nv : Val} {s s' : St}
+    (h : (writeLoc l nv).run s = (.ok (), s')) : (readLoc l).run s' = (.ok nv, s') := by
+  rw [readLoc_run, readLocP_writeLocP_same (writeLoc_run_ok.mp h)]
+
+theorem readLoc_writeLoc_other_cell {n m : Nat} {p q : List Seg} {nv : Val} {s s' : St}
+    (h : (writeLoc ⟨.cell n, p⟩ nv).run s = (.ok (), s')) (hne : m ≠ n) :
+    (readLoc ⟨.cell m, q⟩).run s' = (((readLoc ⟨.cell m, q⟩).run s).1, s') := by
+  rw [readLoc_run, readLoc_run,
+    readLocP_writeLocP_other_base (writeLoc_run_ok.mp h) (fun e => hne (by cases e; rfl))]
+
+theorem readLoc_writeLoc_other_base {l l' : Loc} {nv : Val} {s s' : St}
+    (h : (writeLoc l nv).run s = (.ok (), s')) (hne : l'.base ≠ l.base) :
+    (readLoc l').run s' = (((readLoc l').run s).1, s') := by
+  rw [readLoc_run, readLoc_run, readLocP_writeLocP_other_base (writeLoc_run_ok.mp h) hne]
+
+theorem readLoc_writeLoc_disjoint_path {b : Base} (pre : List Seg) {s1 s2 : Seg} {p q : List Seg}
+    {nv : Val} {s s' : St} (h : (writeLoc ⟨b, pre ++ s1 :: p⟩ nv).run s = (.ok (), s')) (hne : s1 ≠ s2) :
+    (readLoc ⟨b, pre ++ s2 :: q⟩).run s' = (((readLoc ⟨b, pre ++ s2 :: q⟩).run s).1, s') := by
+  rw [readLoc_run, readLoc_run, readLocP_writeLocP_disjoint_path pre hne (writeLoc_run_ok.mp h)]
+
+/-- a reference (a `Loc`) writes through to its referent: after `writeLoc l nv`, every reader of `l` —
+    through however many references (`derefVal` of `.ref l`) — sees `nv` (when `nv` is not itself a reference). -/
+theorem derefVal_ref_after_write {l : Loc} {nv : Val} {s s' : St} (k : Nat)
+    (h : (writeLoc l nv).run s = (.ok (), s')) (hnv : ∀ l', nv ≠ .ref l') :
+    (derefVal (k + 1) (.ref l)).run s' = (.ok nv, s') := by
+  simp only [derefVal, run_bind, readLoc_writeLoc_same h]
+  cases k with
+  | zero => rfl
+  | succ k =>
+    cases nv <;> first | rfl | exact absurd rfl (hnv _)
+
+/-! examples: the hypotheses are satisfiable -/
+example : setPathP (.struct "P" [("x", .int 1), ("y", .int 2)]) [.fld "y"] (.int 7)
+    = .ok (.struct "P" [("x", .int 1), ("y", .int 7)]) := by
+  simp [setPathP, Except.map]
+example : getPathP (.struct "P" [("x", .int 1), ("y", .int 7)]) [.fld "x"] = .ok (.int 1) := by
+  simp [getPathP]
+example : setPathP (.arr [.int 1, .int 2, .int 3]) [.idx 1] (.int 9) = .ok (.arr [.int 1, .int 9, .int 3]) := by
+  simp [setPathP, Except.map]
+example : writeLocP { cells := #[.int 0, .arr [.int 1, .int 2]] } ⟨.cell 1, [.idx 0]⟩ (.int 5)
+    = .ok { cells := #[.int 0, .arr [.int 5, .int 2]] } := by
+  simp [writeLocP, setPathP, Except.map]
+
+/-! ## 5. evaluation order -/
+
+theorem evalE_zero (ctx : Ctx) (env : Env) (e : Expr) : evalE ctx 0 env e = throw .fuel := by
+  rw [evalE]
+theorem evalE_lit (ctx : Ctx) (fuel : Nat) (env : Env) (t : Ty) (v : Int) :
+    evalE ctx (fuel + 1) env (.lit t v) = pure (.int (wrapTy t v)) := by
+  rw [evalE]
+theorem evalE_blit (ctx : Ctx) (fuel : Nat) (env : Env) (b : Bool) :
+    evalE ctx (fuel + 1) env (.blit b) = pure (.bool b) := by
+  rw [evalE]
+theorem evalArgs_zero (ctx : Ctx) (env : Env) (es : List Expr) : evalArgs ctx 0 env es = throw .fuel := by
+  rw [evalArgs]
+theorem evalArgs_nil (ctx : Ctx) (fuel : Nat) (env : Env) : evalArgs ctx (fuel+1) env [] = pure [] := by
+  rw [evalArgs]; exact Nat.succ_ne_zero _
+theorem evalArgs_cons (ctx : Ctx) (fuel : Nat) (env : Env) (a : Expr) (as : List Expr) :
+    evalArgs ctx (fuel + 1) env (a :: as) = (do
+      let v ← evalE ctx fuel env a
+      let vs ← evalArgs ctx fuel env as
+      pure (v :: vs)) := by
+  rw [evalArgs]
+
+/-- how a binary operator combines its (dereferenced) operand values -/
+def combineBin (op : BinOp) (t : Ty) (va vb : Val) : M Val :=
+  match op, va, vb with
+  | .land, .bool x, .bool y => pure (.bool (x && y))
+  | .lor, .bool x, .bool y => pure (.bool (x || y))
+  | .eq, x, y => match t with
+    | .int bits s => match x, y with
+      | .int p, .int q => evalIntBin .eq bits s p q
+      | _, _ => stuck "eq operands"
+    | _ => pure (.bool (valEq x y))
+  | .ne, x, y => match t with
+    | .int bits s => match x, y with
+      | .int p, .int q => evalIntBin .ne bits s p q
+      | _, _ => stuck "ne operands"
+    | _ => pure (.bool (!valEq x y))
+  | op, .int x, .int y => match t with
+    | .int bits s => evalIntBin op bits s x y
+    | _ => stuck "int op at non-int type"
+  | _, _, _ => stuck "bin operands"
+
+theorem evalE_bin (ctx : Ctx) (fuel : Nat) (env : Env) (op : BinOp) (t : Ty) (a b : Expr) :
+    evalE ctx (fuel + 1) env (.bin op t a b) = (do
+      let va ← derefVal 8 (← evalE ctx fuel env a)
+      let vb ← derefVal 8 (← evalE ctx fuel env b)
+      combineBin op t va vb) := by
+  rw [evalE]; rfl
+
+theorem combineBin_int (op : BinOp) (bits : Nat) (s : Bool) (x y : Int) :
+    combineBin op (.int bits s) (.int x) (.int y) = evalIntBin op bits s x y := by
+  cases op <;> rfl
+
+/-- LEFT-TO-RIGHT, on runs: `b` is evaluated in the state left by `a`; an abort of `a` is the abort of the
+    whole expression and `b` is not evaluated (the result does not depend on `b`). -/
+theorem evalE_bin_run (ctx : Ctx) (fuel : Nat) (env : Env) (op : BinOp) (t : Ty) (a b : Expr) (s : St) :
+    (evalE ctx (fuel + 1) env (.bin op t a b)).run s =
+      match (evalE ctx fuel env a).run s with
+      | (.error x, s1) => (.error x, s1)
+      | (.ok ra, s1) =>
+        match (derefVal 8 ra).run s1 with
+        | (.error x, s2) => (.error x, s2)
+        | (.ok va, s2) =>
+          match (evalE ctx fuel env b).run s2 with
+          | (.error x, s3) => (.error x, s3)
+          | (.ok rb, s3) =>
+            match (derefVal 8 rb).run s3 with
+            | (.error x, s4) => (.error x, s4)
+            | (.ok vb, s4) => (combineBin op t va vb).run s4 := by
+  rw [evalE_bin]
+  simp only [run_bind]
+  rcases (evalE ctx fuel env a).run s with ⟨x | ra, s1⟩
+  · rfl
+  · simp only []
+    rcases (derefVal 8 ra).run s1 with ⟨x | va, s2⟩
+    · rfl
+    · simp only []
+      rcases (evalE ctx fuel env b).run s2 with ⟨x | rb, s3⟩
+      · rfl
+      · simp only []
+        rcases (derefVal 8 rb).run s3 with ⟨x | vb, s4⟩ <;> rfl
+
+theorem evalE_bin_abort_left (ctx : Ctx) (fuel : Nat) (env : Env) (op : BinOp) (t : Ty) (a b : Expr)
+    (s s' : St) (x : Abort) (h : (evalE ctx fuel env a).run s = (.error x, s')) :
+    (evalE ctx (fuel + 1) env (.bin op t a b)).run s = (.error x, s') := by
+  rw [evalE_bin_run, h]
+
+theorem evalE_bin_abort_left' (ctx : Ctx) (fuel : Nat) (env : Env) (op : BinOp) (t : Ty) (a b : Expr)
+    (x : Abort) (h : evalE ctx fuel env a = throw x) :
+    evalE ctx (fuel + 1) env (.bin op t a b) = throw x := by
+  rw [evalE_bin, h]; rfl
+
+theorem evalArgs_cons_run (ctx : Ctx) (fuel : Nat) (env : Env) (a : Expr) (as : List Expr) (s : St) :
+    (evalArgs ctx (fuel + 1) env (a :: as)).run s =
+      match (evalE ctx fuel env a).run s with
+      | (.error x, s1) => (.error x, s1)
+      | (.ok v, s1) =>
+        match (evalArgs ctx fuel env as).run s1 with
+        | (.error x, s2) => (.error x, s2)
+        | (.ok vs, s2) => (.ok (v :: vs), s2) := by
+  rw [evalArgs_cons]
+  simp only [run_bind]
+  rcases (evalE ctx fuel env a).run s with ⟨x | v, s1⟩
+  · rfl
+  · simp only []
+    rcases (evalArgs ctx fuel env as).run s1 with ⟨x | vs, s2⟩ <;> rfl
+
+theorem evalArgs_abort_head (ctx : Ctx) (fuel : Nat) (env : Env) (a : Expr) (as : List Expr)
+    (s s' : St) (x : Abort) (h : (evalE ctx fuel env a).run s = (.error x, s')) :
+    (evalArgs ctx (fuel + 1) env (a :: as)).run s = (.error x, s') := by
+  rw [evalArgs_cons_run, h]
+
+/-- arithmetic on two literals: operands are wrapped to the type, the result wraps again -/
+theorem evalE_add_lits (ctx : Ctx) (fuel : Nat) (env : Env) (bits : Nat) (sg : Bool) (x y : Int) :
+    evalE ctx (fuel + 2) env (.bin .add (.int bits sg) (.lit (.int bits sg) x) (.lit (.int bits sg) y)) =
+      pure (.int (wrapInt bits sg (wrapInt bits sg x + wrapInt bits sg y))) := by
+  rw [evalE_bin, evalE_lit, evalE_lit]; rfl
+
+def emptyCtx : Ctx := ⟨[], [], [], []⟩
+def u8 : Ty := .int 8 false
+
+/-- order witness: the left operand's panic wins over the right operand's stuck, and vice versa -/
+example : ((evalE emptyCtx 3 [] (.bin .add u8 (.bin .div u8 (.lit u8 1) (.lit u8 0)) (.var "nope"))).run {}).1
+    = .error (.panic "division by zero") := by
+  rfl
+example : ((evalE emptyCtx 3 [] (.bin .add u8 (.var "nope") (.bin .div u8 (.lit u8 1) (.lit u8 0)))).run {}).1
+    = .error (.stuck "unbound nope") := by
+  rfl
+example : ((evalE emptyCtx 2 [] (.bin .add u8 (.lit u8 200) (.lit u8 100))).run {}).1 = .ok (.int 44) := by
+  rfl
+
 end FerretVerif.Core
